@@ -29,7 +29,7 @@ EXPLANATION = (
     'grid under switched direction in both methods. C03.e: (DSF) the dense-tap memo of TdlImpulseResponse cannot go '
     'stale; the profile arrays are frozen. C03.f: discretisation takes np.unique of the rounded integer delays, '
     'ACCUMULATES (+=) colliding tap powers through the inverse index and normalises by their sum. Not decided: '
-    'linearity, output length, DFT equality.')
+    'linearity, output length, DFT equality. C03.j: every value TdlChannel.corrupt_data returns is built from the tap delays as well as the tap values; C03.k: block loops with a floor trip count test/handle the remainder; C03.l: all tests of one boolean flag (e.g. switched_direction) have the same form.')
 
 
 # ---------------------------------------------------------------------------------------------
@@ -513,6 +513,13 @@ def synthetic():
 
 _CD = 'TdlChannel.corrupt_data'
 MUTANTS = [
+    Mutant('flat-fading-fast-path-drops-the-delay', FA, 'TdlChannel.corrupt_data',
+           [('regex', r'(if len\(self\._fading_generator\.shape\) == 1:\n)', r'\1        if self.num_taps == 1:\n            return tap_values_sparse[0] * signal\n')],
+           r'C03\.j:TdlChannel\.corrupt_data:return-without-delays'),
+    Mutant('direction-flag-tested-by-identity-at-one-site', FA, 'TdlChannel.corrupt_data',
+           [('replace', 'if self.switched_direction:', 'if self.switched_direction is True:')], r'C03\.l:.*flag:'),
+    Mutant('freq-domain-remainder-guard-dropped', FA, 'TdlChannel.corrupt_data_in_freq_domain',
+           [('regex', r'if num_symbols % block_size != 0:\n\s+raise ValueError\([^\n]*\)\n', 'pass\n')], r'C03\.k:TdlChannel\.corrupt_data_in_freq_domain'),
     Mutant('revert-fix-floor-division', FA, 'TdlChannel.corrupt_data_in_freq_domain',
            [('regex', r'block_size = len\(range\(\*indexes\)\)', 'block_size = (indexes[1] - indexes[0]) // indexes[2]')],
            r'C03\.a:TdlChannel\.corrupt_data_in_freq_domain'),
